@@ -16,6 +16,7 @@ import (
 	"github.com/tetratelabs/wazero"
 	"github.com/tetratelabs/wazero/api"
 	"github.com/tetratelabs/wazero/experimental"
+	"github.com/tetratelabs/wazero/internal/wasm"
 	"github.com/tetratelabs/wazero/internal/wasmruntime"
 	c "github.com/tetratelabs/wazero/internal/zz_verif/common"
 )
@@ -33,6 +34,14 @@ type Step struct {
 	Tag    string   `json:"tag,omitempty"`  // pre / post : snapshot around instantiation number Of
 	Of     int      `json:"of,omitempty"`
 	Live   *LiveProbe `json:"live,omitempty"` // live-frame probe: what runs and what the property says it returns
+	ExpectTrap string `json:"expecttrap,omitempty"` // the specification says the call traps with this class
+}
+
+// InstSizes: the sizes of everything in one instance's table / memory index spaces (read from the instance itself)
+type InstSizes struct {
+	N     int   `json:"n"`
+	Tabs  []int `json:"tabs"`  // per table index: number of elements
+	Pages int   `json:"pages"` // -1: no memory
 }
 
 type Obs struct {
@@ -41,6 +50,9 @@ type Obs struct {
 	Err     string         `json:"err,omitempty"`
 	FailIdx int            `json:"failidx"`
 	Cur     map[int]uint32 `json:"cur,omitempty"` // import index -> current pages of the memory it names
+	CurT    map[int]uint32 `json:"curt,omitempty"` // import index -> current length of the table it names
+	Pre     []InstSizes    `json:"pre,omitempty"`  // live-frame probes: every live instance's sizes right before the call ...
+	Post    []InstSizes    `json:"post,omitempty"` // ... and right after it
 	Res     []uint64       `json:"res,omitempty"`
 	Trap    string         `json:"trap,omitempty"`
 	Globals []uint64       `json:"globals,omitempty"`
@@ -64,6 +76,7 @@ type ModOut struct {
 	NImpF   int        `json:"nimpf"`
 	GInit   []*uint64  `json:"ginit"` // per global index: the value right after instantiation, when known by design
 	Host    bool       `json:"host,omitempty"` // live-frame family: the host module (functions in Case.Hosts)
+	Tabs    [][2]int   `json:"tabs"`           // per table index: the table by design identity (owner module, index there)
 }
 
 type Case struct {
@@ -77,6 +90,7 @@ type Case struct {
 	Threads bool            `json:"threads,omitempty"` // some memory type is shared: the runtime enables the threads proposal
 	NoModel bool            `json:"nomodel,omitempty"` // uses instructions outside W (table.set/grow): engines and oracle only
 	Hosts   []HostFn        `json:"hosts,omitempty"`
+	Blind   int             `json:"blind,omitempty"` // live-frame family: the instance that never sees the shared object (0: none)
 	lm      []*LMod
 	bins    [][]byte
 }
@@ -91,6 +105,7 @@ type graph struct {
 	forceName  string
 	forceType0 bool
 	forceShared bool // witness control: the faulty import is the memory import, with the other sharedness
+	tgrowBy     uint32 // witness w-table-grown: by how much the exporter's table grows before it is imported
 }
 
 func (g *graph) newMod() *LMod {
@@ -133,6 +148,12 @@ func (g *graph) exporter(witness string) *LMod {
 	if r.Bool() {
 		m.THasMax, m.TMax = true, m.TMin+uint32(r.Pick([]uint64{0, 2, 12}))
 	}
+	if witness == "w-table-grown" {
+		g.tgrowBy = uint32(1 + r.Intn(3))
+		if m.THasMax && m.TMax < m.TMin+g.tgrowBy+1 { // room to grow
+			m.TMax = m.TMin + g.tgrowBy + uint32(1+r.Intn(2))
+		}
+	}
 	m.TObj = &Obj{Kind: 1, Owner: m.N, Min: m.TMin, HasMax: m.THasMax, Max: m.TMax, Elem: c.FuncRef}
 	addG := func(mut bool, t byte, v uint64) {
 		if t == c.I32 {
@@ -148,7 +169,15 @@ func (g *graph) exporter(witness string) *LMod {
 	addG(false, c.I32, r.Pick([]uint64{0x7ffffff0, 0xffffffff, 0x80000000, 0xfffffff0})) // an offset no segment can have
 	addG(true, c.I32, uint64(1+r.Intn(2)))                                               // mutable and small
 	m.addKit(r, 3, 2)
+	if witness == "w-table-grown" { // table.grow is outside W: the check renders calls of this function as the model's ATabGrow action
+		sg := c.Sig{P: []byte{c.I32}, R: []byte{c.I32}}
+		m.Funcs = append(m.Funcs, &Fn{Sig: sg, Role: "tgrow", Body: []c.Ins{rawIns(0xd0, c.FuncRef), c.ILocalGet(0), rawIns(0xfc, 15, 0)}})
+		m.FObj = append(m.FObj, &Obj{Kind: 0, Owner: m.N, Idx: len(m.Funcs) - 1, Sig: sg, Role: "tgrow"})
+	}
 	g.segments(m, "none")
+	if witness == "w-elem-null" { // slot 1 surely holds a function
+		m.Elems = append(m.Elems, ElemSeg{Off: CE{V: 1, T: c.I32}, Funcs: []int{leaves(m)[0]}, ROff: 1})
+	}
 	m.finish()
 	return m
 }
@@ -339,7 +368,7 @@ func (g *graph) importer(exps []*LMod, fault string) *LMod {
 	for k := 1 + r.Intn(3); k > 0; k-- {
 		x := pick()
 		i := r.Intn(len(x.FObj))
-		if x.FObj[i].Role == "grow" || x.FObj[i].Role == "start" {
+		if x.FObj[i].Role == "grow" || x.FObj[i].Role == "start" || x.FObj[i].Role == "tgrow" {
 			continue
 		}
 		add(x, fmt.Sprintf("f%d", i))
@@ -641,7 +670,11 @@ func (g *graph) randomCalls(steps *[]Step, live []int, k int) {
 	for ; k > 0; k-- {
 		n := live[g.r.Intn(len(live))]
 		m := g.mods[n]
-		*steps = append(*steps, g.callStep(n, g.r.Intn(len(m.FObj))))
+		fi := g.r.Intn(len(m.FObj))
+		for m.FObj[fi].Role == "tgrow" { // witness w-table-grown grows its table exactly once, by one
+			fi = g.r.Intn(len(m.FObj))
+		}
+		*steps = append(*steps, g.callStep(n, fi))
 	}
 }
 
@@ -695,7 +728,9 @@ func (g *graph) probes(steps *[]Step, live []int, justInst int) {
 			slot := map[uint64]*Obj{}
 			for _, e := range m.Elems {
 				for i, f := range e.Funcs {
-					slot[e.ROff+uint64(i)] = m.FObj[f]
+					if f >= 0 {
+						slot[e.ROff+uint64(i)] = m.FObj[f]
+					}
 				}
 			}
 			for _, b := range live {
@@ -735,22 +770,39 @@ func (g *graph) build(id int, witness string) *Case {
 		st.Args = []uint64{1}
 		steps = append(steps, st)
 	}
+	if witness == "w-table-grown" { // ... and likewise its table: the external type of a table instance has its CURRENT size as minimum
+		st := g.callStep(a.N, a.findFn("tgrow", -1))
+		st.Args = []uint64{uint64(g.tgrowBy)}
+		steps = append(steps, st)
+	}
+	if witness == "w-elem-null" { // slot 1 holds the exporter's first leaf
+		o := a.FObj[leaves(a)[0]]
+		steps = append(steps, Step{K: "call", N: a.N, F: a.findFn("calli", -1), Args: []uint64{1, 7}, RT: []int{32}, Role: "calli", Need: []int{a.N},
+			Probe: "table", Expect: u64p(uint64(7*o.LeafK + o.LeafC)), Of: a.N})
+	}
 	good := []*LMod{a}
 	nimp := 1 + r.Intn(2)
+	if witness == "w-elem-null" {
+		nimp = 1
+	}
 	if witness == "w-reexport" {
 		nimp = 3
 	}
 	if witness == "w-typeof" {
 		nimp = 2
 	}
+	nullBy := -1
 	for k := 0; k < nimp; k++ {
 		f := faults[r.Intn(len(faults))]
 		if witness != "" {
 			f = witness
 		}
 		tries := []string{f}
-		if f != "none" && f != "w-reexport" && !(f == "w-typeof" && k == 0) {
+		if f != "none" && f != "w-reexport" && f != "w-elem-null" && !(f == "w-typeof" && k == 0) {
 			tries = append(tries, "none") // the repaired variant follows the failing one
+		}
+		if f == "w-table-grown" { // the current size as minimum (accepted), one more (rejected), then an ordinary importer
+			tries = []string{"w-table-grown", "w-table-grown+", "none"}
 		}
 		for _, ft := range tries {
 			var m *LMod
@@ -795,6 +847,34 @@ func (g *graph) build(id int, witness string) *Case {
 					}
 					return false
 				})
+			case "w-table-grown", "w-table-grown+":
+				// the table import asks for more than the DECLARED minimum: exactly the current size (matches: the external type of a
+				// table instance has its current size as minimum), then one element more than that (rejected, class 4, by the
+				// specification too)
+				m = g.importerWith(good, "import", func(m *LMod) bool {
+					for _, im := range m.Imports {
+						if im.Kind == 1 && im.Variant == "min+1" && im.Mod == 0 {
+							return true
+						}
+					}
+					return false
+				})
+				for i := range m.Imports {
+					if im := &m.Imports[i]; im.Kind == 1 && im.Variant == "min+1" {
+						im.Min, im.Variant = a.TMin+g.tgrowBy, "min=current"
+						if ft == "w-table-grown+" {
+							im.Min, im.Variant = im.Min+1, "min=current+1"
+						}
+						if im.HasMax && im.Max < im.Min {
+							im.Max = im.Min
+						}
+					}
+				}
+			case "w-elem-null": // (elem (i32.const 1) funcref (ref.null func)) on the imported table
+				m = g.importerWith(good, "none", func(m *LMod) bool { return m.TObj == a.TObj && m.Start < 0 })
+				m.Elems = append(m.Elems, ElemSeg{Off: CE{V: 1, T: c.I32}, Funcs: []int{-1}, ROff: 1})
+				nullBy = m.N
+				ft = "none"
 			case "w-reexport":
 				switch k {
 				case 0: // M1 defines functions and imports some
@@ -831,6 +911,14 @@ func (g *graph) build(id int, witness string) *Case {
 				good = append(good, m)
 			}
 			g.probes(&steps, live, m.N)
+			if nullBy == m.N { // per the specification slot 1 is null now, for everybody who sees the table
+				for _, b := range live {
+					if y := g.mods[b]; y.TObj == a.TObj {
+						steps = append(steps, Step{K: "call", N: b, F: y.findFn("calli", -1), Args: []uint64{1, uint64(r.Intn(1000))}, RT: []int{32}, Role: "calli",
+							Need: []int{b, m.N}, Probe: "table-null", ExpectTrap: "indirect", Of: m.N})
+					}
+				}
+			}
 			g.randomCalls(&steps, live, 3+r.Intn(5))
 			if witness == "w-reexport" {
 				for fi := 0; fi < m.NImpF; fi++ {
@@ -868,6 +956,7 @@ func (g *graph) build(id int, witness string) *Case {
 		if m.MObj != nil {
 			mo.MemOf = m.MObj.Owner
 		}
+		mo.Tabs = m.tabIdents()
 		startSets := false
 		if m.Start >= 0 {
 			for _, in := range m.Funcs[m.Start-m.NImpF].Body {
@@ -1005,6 +1094,7 @@ func runCase(engine string, cs *Case) (obs []Obs) {
 			case "inst":
 				o.FailIdx = -1
 				o.Cur = map[int]uint32{}
+				o.CurT = map[int]uint32{}
 				for i, im := range m.Imports {
 					if x := mods[im.Mod]; x != nil && im.XKind == 2 {
 						if mem := x.ExportedMemory(im.Name); mem != nil {
@@ -1012,6 +1102,11 @@ func runCase(engine string, cs *Case) (obs []Obs) {
 							if p, _ := mem.Grow(0); p == 65536 {
 								o.Cur[i] = p
 							}
+						}
+					}
+					if x, ok := mods[im.Mod].(*wasm.ModuleInstance); ok && x != nil && im.XKind == 1 { // the public API has no table access
+						if e := x.Exports[im.Name]; e != nil && e.Type == wasm.ExternTypeTable {
+							o.CurT[i] = uint32(len(x.Tables[e.Index].References))
 						}
 					}
 				}
@@ -1034,7 +1129,13 @@ func runCase(engine string, cs *Case) (obs []Obs) {
 				}
 				mods[st.N] = mod
 			case "call":
+				if st.Live != nil {
+					o.Pre = sizesOf(cs, mods)
+				}
 				res, err := mods[st.N].ExportedFunction(fmt.Sprintf("f%d", st.F)).Call(ctx, st.Args...)
+				if st.Live != nil {
+					o.Post = sizesOf(cs, mods)
+				}
 				if err != nil {
 					o.Trap = c.TrapClass(err)
 					return
@@ -1065,6 +1166,26 @@ func runCase(engine string, cs *Case) (obs []Obs) {
 				}
 			}
 		}()
+	}
+	return
+}
+
+// sizesOf: for every live wasm instance, the length of every table in its index space and the size of its memory, read
+// from the instance records (TableInstance.References, MemoryInstance.Buffer): what table.size / memory.size return there
+func sizesOf(cs *Case, mods map[int]api.Module) (o []InstSizes) {
+	for n, lm := range cs.lm {
+		mi, ok := mods[n].(*wasm.ModuleInstance)
+		if lm.IsHost || !ok || mi == nil {
+			continue
+		}
+		z := InstSizes{N: n, Tabs: []int{}, Pages: -1}
+		for _, t := range mi.Tables {
+			z.Tabs = append(z.Tabs, len(t.References))
+		}
+		if mi.MemoryInstance != nil {
+			z.Pages = len(mi.MemoryInstance.Buffer) / 65536
+		}
+		o = append(o, z)
 	}
 	return
 }
@@ -1172,6 +1293,13 @@ func main() {
 	for i := 0; i < *n; i++ {
 		g := &graph{r: c.NewRng(rng.U64())}
 		cases = append(cases, g.build(len(cases), ""))
+	}
+	// later witnesses draw from a generator of their own (the random graphs above keep their streams): a table import judged
+	// against the table's current size; a null entry of an active element segment over a non-null slot of an imported table
+	wrng := c.NewRng(c.NewRng(*seed).U64() ^ 0x7ab1e7ab1e)
+	for _, w := range []string{"w-table-grown", "w-elem-null"} {
+		g := &graph{r: c.NewRng(wrng.U64())}
+		cases = append(cases, g.build(len(cases), w))
 	}
 	// live-frame family: fixed witnesses (the graph of the seeded defect C04c, every reader x writer x first-instruction
 	// combination per object kind), then random graphs. A generator of its own, so the older families keep their streams.
